@@ -30,6 +30,8 @@ impl Chunk {
         use std::sync::atomic::Ordering;
         NUM_LIVE_CHUNKS.fetch_add(1, Ordering::Relaxed);
         NUM_LIVE_BYTES.fetch_add(storage.len(), Ordering::Relaxed);
+        #[cfg(feature = "verif-hooks")]
+        crate::verif::chunk_created(storage.as_ptr() as usize, storage.len());
 
         Chunk {
             storage: NonNull::from(Box::leak(storage)),
@@ -61,6 +63,8 @@ impl Drop for Chunk {
             unsafe { std::ptr::write_volatile(&mut storage[i] as *mut _ as *mut u8, b'\xFC') };
         }
 
+        #[cfg(feature = "verif-hooks")]
+        let storage = crate::verif::chunk_released(storage);
         std::mem::drop(storage);
 
         NUM_LIVE_CHUNKS.fetch_sub(1, Ordering::Relaxed);
